@@ -505,6 +505,64 @@ func main() {
 				out.write(genHist(id))
 			}
 		}
+	case "univ":
+		// histories of crew operations enumerated by TLC (spec/SioCrew.tla): operations between two reports
+		// happen within one processed message (a carrier machine z emits them as one batch)
+		in, err := os.Open(os.Args[2])
+		check(err)
+		out := newOut(os.Args[3])
+		defer out.close()
+		sc := bufio.NewScanner(in)
+		sc.Buffer(make([]byte, 1<<20), 1<<26)
+		id := 0
+		for sc.Scan() {
+			var c struct {
+				Hist [][]string `json:"hist"`
+			}
+			check(json.Unmarshal(sc.Bytes(), &c))
+			id++
+			seq = 0
+			toMsg := func(op []string) map[string]interface{} {
+				switch op[0] {
+				case "set":
+					u := map[string]interface{}{}
+					if op[2] != "none" {
+						u["spec"] = inlineSpec(op[2])
+					}
+					if op[3] != "none" {
+						u["state"] = map[string]interface{}{"node": "start", "bs": map[string]interface{}{"table": map[string]interface{}{}, "log": []interface{}{op[3]}}}
+					}
+					return map[string]interface{}{"id": newID("op"), "to": "captain", "update": map[string]interface{}{op[1]: u}}
+				case "del":
+					return map[string]interface{}{"id": newID("op"), "to": "captain", "delete": []interface{}{op[1]}}
+				}
+				return map[string]interface{}{"id": newID("m"), "to": op[1]}
+			}
+			h := &history{}
+			ztable := map[string]interface{}{}
+			var seg [][]string
+			for _, op := range c.Hist {
+				if op[0] != "report" {
+					seg = append(seg, op)
+					continue
+				}
+				if len(seg) == 1 {
+					h.Msgs = append(h.Msgs, toMsg(seg[0]))
+				} else if len(seg) > 1 {
+					name := newID("seg")
+					batch := []interface{}{}
+					for _, o := range seg {
+						batch = append(batch, toMsg(o))
+					}
+					ztable[name] = batch
+					h.Msgs = append(h.Msgs, map[string]interface{}{"id": name, "to": "z"})
+				}
+				seg = nil
+			}
+			h.Inits = []machInit{{"z", "A", ztable}}
+			out.write(runHistory(id, "hist", h, true))
+		}
+		check(sc.Err())
 	case "replay":
 		js, err := os.ReadFile(os.Args[2])
 		check(err)
